@@ -420,6 +420,29 @@ def check_get_record(cx: Cx, ob: Ob) -> None:
             continue
         line = ctx.path.out[2]
         ob.site(f"{where(fn, line)} {fn.qualname}", f"return {show(t)[:40]}")
+        if op(t) == "call" and t[1] == ("builtin", "next") and t[2] and op(t[2][0]) == "comp" and len(t[2][0][3]) == 1:
+            # next((r for r in self.records if <match>), None): first match in record order
+            comp = t[2][0]
+            tgt, it, ifs = comp[3][0]
+            prov.add_binding(tgt, it)
+            if it != ("attr", me, "records") or comp[2] != tgt:
+                ob.undecide("get_record: generator does not yield the records of self.records")
+                continue
+            if len(t[2]) < 2 or not is_const(t[2][1], None):
+                ob.violate(fn.qualname, where(fn, line), "get_record raises StopIteration for unknown prefixes instead of returning None", detail="no-default")
+            cover = set()
+            for c in ifs:
+                cover |= cmp_cover(prov, c, probe)
+            fields = {f for r, f in cover if r == tgt}
+            ok = True
+            if any(r == "?" for r, _ in cover):
+                ob.undecide("get_record compares against an unrecognised term")
+            missing = CURIE_SIDE - fields
+            if missing:
+                ob.violate(fn.qualname, where(fn, line), f"get_record does not match on {sorted(missing)}", witness="expand_pair_all(<synonym>, x) finds no record", detail="cover:" + "+".join(sorted(missing)))
+            if fields - CURIE_SIDE:
+                ob.violate(fn.qualname, where(fn, line), f"get_record also matches on {sorted(fields - CURIE_SIDE)}", detail="cover-extra")
+            continue
         if not ctx.loops or ctx.loops[-1].b != ("attr", me, "records"):
             ob.undecide("get_record does not scan self.records")
             continue
